@@ -1,4 +1,5 @@
 mod actions;
+mod auth;
 mod chain;
 mod deploy;
 mod enumer;
@@ -7,6 +8,7 @@ mod fee;
 mod hubcore;
 mod obs;
 mod params;
+mod pause;
 mod props;
 mod reward;
 mod runner;
